@@ -150,18 +150,17 @@ Theorem T_C09_load_stream_total : forall K sep keys text, (0 < K)%nat -> clean (
 Proof. exact csv_load_stream_total. Qed.
 Print Assumptions T_C09_load_stream_total.
 
-(* ---- F18: writer side of the width check.  Full statement (writer_width_statement):
-     forall k sep hdr rows, allowed sep -> ragged rows -> csv_save k sep (map (with_keys hdr) rows) = Err OutOfRange
-   false for EVERY ragged table: the writer classes report OutOfRange, but under SaveObject the report leaves the
-   destructor of CCsvWriteObjectScope, i.e. std::terminate ---- *)
-Theorem T_C09_width_rejected_writer_refuted : ~ writer_width_statement.
-Proof. exact writer_width_refuted. Qed.
-Print Assumptions T_C09_width_rejected_writer_refuted.
+(* ---- writer side of the width check (finding F18, repaired by 0a28cd4: the report used to leave the destructor of
+   CCsvWriteObjectScope, i.e. std::terminate): a table in which some row has another number of fields than the first
+   is refused with OutOfRange, by the writer classes and under SaveObject alike ---- *)
+Theorem T_C09_width_rejected_writer_full : writer_width_statement.
+Proof. exact writer_width_holds. Qed.
+Print Assumptions T_C09_width_rejected_writer_full.
 
 Theorem T_C09_width_rejected_writer : forall k sep hdr (rows : list record), allowed sep -> ragged rows ->
-  csv_save k sep (map (with_keys hdr) rows) = Terminate /\
+  csv_save k sep (map (with_keys hdr) rows) = Err OutOfRange /\
   writer_run k true sep (map (with_keys hdr) rows) = Err OutOfRange.
-Proof. exact writer_width_all_terminate. Qed.
+Proof. exact writer_width_all_reported. Qed.
 Print Assumptions T_C09_width_rejected_writer.
 
 (* ---- separator: exactly , ; TAB SPACE | are accepted, by every entry point ---- *)
